@@ -1,6 +1,6 @@
 (* C09 -- string literals decode exactly, at every length and alignment. Statements only. *)
 From Coq Require Import List NArith Arith Bool.
-From SonicV Require Import Base.Blocks Spec.Ref Model.SkipStr Model.Inplace Model.TablesOk Gen.Tables.
+From SonicV Require Import Base.Blocks Spec.Ref Model.SkipStr Model.Inplace Model.TablesDefs Model.TablesOk Gen.Tables.
 Import ListNotations.
 Local Close Scope N_scope.
 Local Open Scope nat_scope.
